@@ -26,6 +26,11 @@ type Input struct {
 	M     int    `json:"mul"`
 	D     int    `json:"div"`
 	Class string `json:"class"`
+	// how the caller treats the key slices it hands to Insert:
+	//   ""              a fresh copy per call
+	//   "shared-buffer" one buffer reused for all Insert calls of a snapshot, overwritten in place (as a spy does)
+	//   "mutate-after"  the caller scribbles over the key slice right after Insert returns
+	Reuse string `json:"reuse,omitempty"`
 }
 
 func randVal(r *rand.Rand) uint64 {
@@ -122,6 +127,7 @@ func gen(r *rand.Rand, idx int, tier string) Input {
 		in.Prev = append(in.Prev, in.Cur...)
 	case "empty-prev":
 	}
+	in.Reuse = []string{"", "shared-buffer", "mutate-after", "shared-buffer"}[(idx/len(classes))%4]
 	switch r.Intn(6) {
 	case 0, 1:
 		in.M, in.D = 1, 1
@@ -137,11 +143,40 @@ func gen(r *rand.Rand, idx int, tier string) Input {
 	return in
 }
 
-func build(ops []Op) *transporttrie.Trie {
+func build(ops []Op, reuse string) *transporttrie.Trie {
 	t := transporttrie.New()
-	for _, o := range ops {
-		// the key is copied: Insert keeps a reference only to its own copy, but the input must stay intact
-		t.Insert(append([]byte{}, o.K...), o.V, o.M)
+	switch reuse {
+	case "shared-buffer":
+		// session.go hands the spy's slice straight to Insert; spies reuse ONE buffer for successive stacks
+		max := 0
+		for _, o := range ops {
+			if len(o.K) > max {
+				max = len(o.K)
+			}
+		}
+		buf := make([]byte, max)
+		for _, o := range ops {
+			for i := range buf {
+				buf[i] = '#' // stale bytes of earlier, longer stacks must not matter either
+			}
+			copy(buf, o.K)
+			t.Insert(buf[:len(o.K)], o.V, o.M)
+		}
+		for i := range buf {
+			buf[i] = '!'
+		}
+	case "mutate-after":
+		for _, o := range ops {
+			k := append([]byte{}, o.K...)
+			t.Insert(k, o.V, o.M)
+			for i := range k {
+				k[i] ^= 0x55
+			}
+		}
+	default:
+		for _, o := range ops {
+			t.Insert(append([]byte{}, o.K...), o.V, o.M)
+		}
 	}
 	return t
 }
@@ -175,8 +210,8 @@ func run(in Input) (res lib.Result) {
 	if in.D == 0 {
 		in.D = 1
 	}
-	cur := build(in.Cur)
-	prev := build(in.Prev)
+	cur := build(in.Cur, in.Reuse)
+	prev := build(in.Prev, in.Reuse)
 	curDump, curIter := cur.VerifDump(), trieu.Iter(cur)
 	prevDump, prevIter := prev.VerifDump(), trieu.Iter(prev)
 
@@ -236,7 +271,7 @@ func run(in Input) (res lib.Result) {
 		Coq:        coq,
 		NonTrivial: (prevOnly && split) || underflow,
 		Feat: map[string]interface{}{"class": in.Class, "cur_ops": len(in.Cur), "prev_ops": len(in.Prev),
-			"split": split, "underflow": underflow, "prev_only_key": prevOnly, "ratio": ratio,
+			"key_slices": map[string]string{"": "fresh", "shared-buffer": "shared-buffer", "mutate-after": "mutate-after"}[in.Reuse], "split": split, "underflow": underflow, "prev_only_key": prevOnly, "ratio": ratio,
 			"cur_nodes": trieu.Size(curDump), "diff_nodes": trieu.Size(diffDump)},
 		Obs: map[string]interface{}{"diff": diffIter},
 	}
